@@ -57,15 +57,22 @@ def run(ctx):
     ctx.assume('oracle: truth x exact-rational binned response; rtol 1e-9 (float64 packages) / 1e-5 (float32 storage)',
                'the cube format requires the parameter table in cube order (convolve_model_dir refuses otherwise)',
                'fits are compared with the numeric reference (C01/C02) per variant, which is what "agree" means up to the float32 memmap bound')
-    ctx.require_events('ConvolvedFluxes.sort_to_match:post', 'file:checked', 'twin:compared', 'fit:checked')
-    ctx.require_regimes('gz', 'subdir', 'mixed-order', 'cube:desc', 'cube:asc', 'f32', 'n_ap>1', 'n_ap=1', 'memmap:on', 'memmap:off', 'filters>1', 'filters-used-before')
+    ctx.require_events('file:checked', 'twin:compared', 'fit:checked')     # (the sort_to_match probe is an extra observation point, not a required route)
+    ctx.require_regimes('gz', 'subdir', 'mixed-order', 'cube:desc', 'cube:asc', 'f32', 'n_ap>1', 'n_ap=1', 'memmap:on', 'memmap:off', 'filters>1', 'filters-used-before', 'names:long', 'cube-unit:Jy')
     n_pkg = 7 if ctx.quick else 120
     for ip in range(n_pkg):
         n_m = int(rng.integers(1, 9))
         n_ap = int(rng.integers(1, 6))
         n_w = int(rng.choice([6, 15, 40]))
         f32 = bool(rng.random() < 0.3)
-        names = tricky_names(rng, n_m) if rng.random() < 0.6 else gen.model_names(rng, n_m)
+        r_ = rng.random()
+        if r_ < 0.5:
+            names = tricky_names(rng, n_m)
+        elif r_ < 0.75:
+            names = gen.model_names(rng, n_m)
+        else:          # long names: the format allows 30 characters
+            names = [('L%02d_' % i) + ''.join(rng.choice(list('abcXYZ019_'), int(rng.integers(14, 25)))) for i in rng.permutation(n_m)]
+            ctx.regime('names:long')
         lsub = int(rng.choice([0, 0, 1, 2]))
         if lsub and min(len(x) for x in names) < lsub:
             lsub = 0
@@ -85,7 +92,9 @@ def run(ctx):
         pkg.build_v1(d1, t1, table_order=order, desc=desc, gz=gz, length_subdir=lsub, fmt='E' if f32 else 'D',
                      param_gz=bool(rng.random() < 0.3), pad_names=bool(rng.random() < 0.3))
         cdesc = bool(rng.random() < 0.5)
-        pkg.build_v2(d2, truth, descending_wav=cdesc, dtype='f4' if f32 else 'f8')
+        cunit = 'mJy' if f32 else str(rng.choice(['mJy', 'Jy', 'uJy']))
+        pkg.build_v2(d2, truth, descending_wav=cdesc, dtype='f4' if f32 else 'f8', unit=cunit)
+        ctx.regime('cube-unit:' + cunit)
         ctx.regime('cube:desc' if cdesc else 'cube:asc')
         ctx.regime('n_ap>1' if n_ap > 1 else 'n_ap=1')
         if gz.any():
@@ -100,7 +109,9 @@ def run(ctx):
         filters = []
         for jf in range(nfil):
             fw, resp, central, kind = convcheck.make_filter_arrays(rng, truth.wav, kind=str(rng.choice(['inside', 'inside', 'contains', 'partial-lo'])))
-            filters.append(convcheck.build_filter('T%d' % jf, fw, resp, central, descending_nu=bool(rng.random() < 0.5)))
+            filters.append(convcheck.build_filter('T%d' % jf, fw, resp, central, descending_nu=bool(rng.random() < 0.5),
+                                                  normalize=bool(rng.random() < 0.7), nu_unit=[None, u.GHz][int(rng.integers(2))],
+                                                  cw_unit=[None, u.nm, u.mm][int(rng.integers(3))]))
         wit0 = dict(n_models=n_m, n_ap=n_ap, n_wav=n_w, names=names, table_order=order, desc=desc, gz=gz, length_subdir=lsub,
                     cube_desc=cdesc, f32=f32, sed_wav=truth.wav)
         if ip % 2 == 0:
@@ -115,6 +126,8 @@ def run(ctx):
             except Exception as exc:
                 ctx.violation('convolve-raised:decoy', 'convolve_model_dir raised: %r' % (exc,), wit0)
             ctx.rmdir(dd)
+        import copy as _copy
+        filters_before = [_copy.deepcopy(f_) for f_ in filters]      # references are computed from the curves as handed over
         got = {}
         edge_tol = {}
         for style, d in (('v1', d1), ('v2', d2)):
@@ -127,11 +140,11 @@ def run(ctx):
                 continue
             wrote = sorted(set(os.path.relpath(p, d) for p in tr.produced(under=d)))
             want = sorted('convolved/%s.fits' % f.name for f in filters)
-            if wrote != want:
-                ctx.violation('files-written:' + style, 'convolve_model_dir did not write exactly one file per filter',
+            if not set(want) <= set(wrote):        # other files (logs, caches) are not what the property is about
+                ctx.violation('files-written:' + style, 'convolve_model_dir did not write one file per filter',
                               dict(wit0, style=style, written=wrote, expected=want))
             expect_rows = [names[i] for i in order] if style == 'v1' else list(names)
-            for flt in filters:
+            for flt in filters_before:
                 ref_f, ref_e, R = convcheck.reference_convolution(t1 if style == 'v1' else truth, flt)
                 try:
                     g = convcheck.read_convolved_plain(os.path.join(d, 'convolved', flt.name + '.fits'))
